@@ -236,8 +236,10 @@ func ZZ_C10_BulkStale() {
 	s.step(zzOpSet, 1, "c10r.prefix")
 	s.step(zzOpSet, 2, "c10r.prefix")
 	s.advance()
-	mode := vChoice("reload", 4) // 0 full, 1 partial (key 2 not found), 2 error + partial map, 3 error + nil map
-	rnames := []string{"full", "partial", "error_partial", "error_nil"}
+	// 0 full, 1 partial (key 2 not found), 2 error + partial map, 3 error + nil map, 4 empty map without error (every
+	// reloaded key not found), 5 nil map without error (likewise)
+	mode := vChoice("reload", 6)
+	rnames := []string{"full", "partial", "error_partial", "error_nil", "empty_ok", "nil_ok"}
 	vScenario("reload=" + rnames[mode])
 	stale1 := s.m[1].ref <= s.now()
 	stale2 := s.m[2].ref <= s.now()
@@ -255,6 +257,10 @@ func ZZ_C10_BulkStale() {
 				res[1] = n1
 			case 3:
 				return nil, zzErrLoad
+			case 4:
+				return res, nil
+			case 5:
+				return nil, nil
 			}
 			if mode == 2 {
 				return res, zzErrLoad
@@ -280,7 +286,7 @@ func ZZ_C10_BulkStale() {
 	vAssert(ok3 && e3.Value == n3, "c10r.loaded_key_cached")
 	check := func(stale bool, supplied bool, ok bool, e Entry[int, int], oldV, newV int, oldRef int64, tag string) {
 		switch {
-		case !stale || mode >= 2:
+		case !stale || mode == 2 || mode == 3:
 			vAssert(ok && e.Value == oldV, "c10r.failed_or_no_reload_leaves_entry_unchanged"+tag)
 			vAssert(ok && e.RefreshableAtNano == oldRef, "c10r.failed_or_no_reload_leaves_refresh_time"+tag)
 		case supplied:
@@ -289,6 +295,6 @@ func ZZ_C10_BulkStale() {
 			vAssert(!ok, "c10r.not_found_on_reload_removes"+tag)
 		}
 	}
-	check(stale1, true, ok1, e1, old1, n1, oldRef1, "")
+	check(stale1, mode < 4, ok1, e1, old1, n1, oldRef1, "")
 	check(stale2, mode == 0, ok2, e2, old2, n2, oldRef2, "")
 }
